@@ -101,6 +101,25 @@ def run(ctx):
         ctx.count("R2.registry")
         ctx.ob("R2", "registered|%s" % name, sub["site"].loc(), "sub-command %s dispatches to %s" % (name, sub["func"] or "nothing (no set_defaults(func=...))"), sub["func"] is not None)
 
+    # ---- R5 no explicit exit with a zero status from the dispatcher or a handler
+    targets = [("cli.cli", smc)] + [(sub["func"], eng.summary(prog.func(sub["func"]))) for _n, sub in sorted(subs.items()) if sub["func"] and sub["func"] in ("cli.cli_verify_metadata", "cli.cli_sign_artifacts", "cli.cli_gpg_sign", "cli.cli_gpg_key_lookup")]
+    seen_exit = set()
+    for q, smx in targets:
+        for p in smx.paths:
+            if p.kind != "raise" or p.value.exc != "SystemExit" or p.value.origin != "explicit":
+                continue
+            exits = [ev for ev, _d in flatten_events(p.events) if ev[0] == "exit"]
+            status = exits[-1][2] if exits else C(None)
+            s = p.value.chain[-1]
+            k = (q, s.key(), show(status))
+            if k in seen_exit:
+                continue
+            seen_exit.add(k)
+            ctx.count("R5.explicit_exits")
+            ctx.ob("R5", "explicit-exit|%s|%s|%s" % k, s.loc(), "%s exits the process explicitly with status %s%s" % (q, show(status), "" if nonzero_int(status) else ": a zero/None status reports success although the command did not complete"), nonzero_int(status))
+    if not seen_exit:
+        ctx.ob("R5", "no-explicit-exit", fn_site(eng, smc).loc(), "neither cli() nor a handler exits the process explicitly: the status is always the handler's return value or an uncaught exception", True, nontrivial=False)
+
     # ---- R3 entry points
     _entry_points(ctx)
 
